@@ -38,7 +38,7 @@ def selftest_configs():
         return onp.dot(x, onp.array([[1.0, 2.0], [3.0, 4.0]]))
 
     defvjp(st_mat, lambda ans, x: lambda g: anp.dot(g, onp.array([[1.0, 2.0], [3.0, 4.0]])))  # missing transpose
-    defjvp(st_mat, lambda g, ans, x: anp.dot(g, onp.array([[1.0, 3.0], [2.0, 4.0]])))
+    defjvp(st_mat, lambda g, ans, x: anp.dot(g, onp.array([[1.0, 2.0], [3.0, 4.0]])))  # correct
 
     @primitive
     def st_ok(x):
@@ -52,18 +52,20 @@ def selftest_configs():
 
     return [
         Config("SELFTEST", "planted VJP/JVP factor 1+-1e-3 [expect violation]", call(st_scale), [R(2)], 0, tags=("selftest", "expect_violation")),
-        Config("SELFTEST", "planted missing transpose [expect violation]", call(st_mat), [R(2, 2)], 0, tags=("selftest", "expect_violation")),
+        Config("SELFTEST", "planted missing transpose in the VJP only [expect violation; C02: expect holds]", call(st_mat), [R(2, 2)], 0, tags=("selftest", "expect_violation")),
         Config("SELFTEST", "correct user primitive [expect holds]", call(st_ok), [R(2)], 0, tags=("selftest", "expect_holds")),
     ]
 
 
-def split_selftest(results):
+def split_selftest(results, pid=None):
     st = [r for r in results if r["key"].startswith("SELFTEST")]
     rest = [r for r in results if not r["key"].startswith("SELFTEST")]
     ok = True
     rep = []
     for r in st:
         want = "violation" if "expect violation" in r["key"] else "holds"
+        if pid and ("%s: expect holds" % pid) in r["key"]:
+            want = "holds"
         good = r["status"] == want
         ok = ok and good
         rep.append({"case": r["key"], "expected": want, "got": r["status"]})
@@ -116,7 +118,7 @@ class GridProp:
         results = runner.run_items(self.MOD, tier)
         st = None
         if self.selftest:
-            results, st = split_selftest(results)
+            results, st = split_selftest(results, self.ID)
         b = dict(self.bounds)
         b.update({"tier": tier, "path_bound_per_configuration": checks_a.tier_opts(tier)["max_paths"], "query_timeout_ms": checks_a.tier_opts(tier)["timeout_ms"]})
         return runner.finish(self.ID, tier, results, t0, functions=ENGINE_A_FUNCS + self.functions, files=self.files, bounds=b,
